@@ -69,7 +69,10 @@ T_BExact(e) ==
          /\ e.b_type = "Fraction"
          /\ e.b_count = T_DCountN(e) /\ e.b_groups = T_DCountN(e)
          /\ e.b_portion.ok = 1 /\ e.b_portion.sgn = 1           \* a positive portion is materialised
-         /\ Abs(e.b_portion.n - T_DPortion(e).n) <= HalfCenti   \* GPU_PORTION (two decimals) is the denoted portion
+         \* GPU_PORTION has two decimals: a fraction is rounded to the nearest centi-GPU; a memory request is
+         \* converted with ceil(memory / node GPU memory * 100) / 100 - never less than what was asked for
+         /\ IF k = "fraction" THEN Abs(e.b_portion.n - e.d_frac.n) <= HalfCenti
+            ELSE e.b_portion.n - e.d_memportion.n \in 0..(2 * HalfCenti)
          /\ e.b_brportion.x = e.b_portion.x                     \* ... and what the scheduler put into the BindRequest
     [] k = "whole" -> e.b_type = "Regular" /\ e.b_count = e.d_gpu.n
     [] OTHER -> e.b_type = "Regular" /\ e.b_count = 0
@@ -80,7 +83,9 @@ TraceObserve ==
        /\ raw' = e
        /\ obs' = [admitted |-> e.a_admitted = 1, mutated |-> e.a_mutate_ok = 1, idem |-> e.a_idem = 1,
                   d_wf |-> T_Dwf(e, pod), d_kind |-> T_DKind(e),
-                  s_kind |-> T_SKind(e), s_exact |-> T_SExact(e), s_requires |-> e.s_requires = 1,
+                  s_kind |-> T_SKind(e),
+                  \* exact quantities, and accounted as a GPU request at all (IsRequireAnyKindOfGPU)
+                  s_exact |-> (T_SExact(e) /\ (T_DKind(e) # "none" => e.s_requires = 1)),
                   s_sharing |-> e.s_sharing = 1, fits |-> T_Fits(e, pod),
                   b_reached |-> e.b_reached = 1, b_ok |-> (e.b_prebind_ok = 1 /\ e.b_validate_ok = 1),
                   b_exact |-> (e.b_reached = 1 /\ T_BExact(e)), sharing |-> pod.sharing = 1]
@@ -107,7 +112,8 @@ P == ScnPod(pod)
 D_ModelDenotation == (pc = "done" /\ IsClass) => obs.d_wf = M_Dwf(P) /\ obs.d_kind = DKind(P)
 D_ModelAdmission  == (pc = "done" /\ IsClass) => (obs.admitted = M_Admitted(P)) /\ (obs.mutated = M_MutateOk(P))
 D_ModelScheduler  == (pc = "done" /\ IsClass) => obs.s_kind = M_SchedKind(P)
-                                                  /\ ((obs.admitted /\ obs.d_wf) => obs.s_exact = M_SchedExact(P) /\ obs.s_requires = M_SchedRequires(P))
+                                                  \* (dev = max64: whether the int64 product wraps to a positive value depends on the representative)
+                                                  /\ ((obs.admitted /\ obs.d_wf /\ obs.s_kind = obs.d_kind /\ P.dev # "max64") => obs.s_exact = M_SchedExact(P))
 D_ModelFits       == (pc = "done" /\ IsClass /\ obs.d_wf /\ obs.admitted) => obs.fits = M_Fits(P)
 
 (* ---- scenario exporter ---- *)
